@@ -22,6 +22,12 @@ PLAN = {   # seed -> [(property, extra args)]
     "C17-m2": [("C17", ["--only", "i64"])],
     "C05-m1": [("C05", ["--only", "nth_weekday_of_month"])],
     "C05-m2": [("C05", ["--only", "k_ifrom_doy_no_leap"])],
+    "C04-m1": [("C04", ["--only", "k_posix_mid_ambiguous"])],
+    "C04-m2": [("C04", ["--only", "k_posix_neg_ambiguous"])],
+    "C07-m1": [("C07", ["--only", "k_date_until"])],
+    "C07-m2": [("C07", ["--only", "k_ts_until"])],
+    "C20-m1": [("C20", ["--only", "k_tz_fixed$"])],
+    "C20-m2": [("C20", ["--only", "k_tz_fixed_eq"])],
 }
 seeds = sys.argv[1:] or sorted(PLAN)
 rows = []
